@@ -256,6 +256,10 @@ def c02(chk):
     chk.proofs(["Midi.Props.C02"])
     chk.translated(['TShort', 'TCn'])
     msg_exhaustive(chk, C02_CELLS, mask="c02")
+    # the serde configuration: the type <-> byte table must also be what deserialization of a ShortMessageType accepts
+    exe_s = chk.cargo_build("with_serde")
+    if exe_s is not None:
+        lines_run(chk, exe_s, ["serde-lines"], "serde", only=r"de smt ")
 
 
 def c03(chk):
@@ -377,6 +381,7 @@ def c04(chk):
         lines_run(chk, exe, ["conv-lines"], "conv")
         lines_run(chk, exe, ["new-lines", "std"], "new-std")
         lines_run(chk, exe, ["num-lines"], "num")
+        lines_run(chk, exe, ["ntop-lines"], "ntop")     # operator impls on the restricted integers, if the source has any
         blocks_then_lines(chk, exe, ["msg-blocks", "c04"], "blocks")
         # values read back from every message the factory constructors build (named + generic, all argument tuples)
         lines_run(chk, exe, ["ctor-range"], "ctor-range")
@@ -417,6 +422,11 @@ def c05(chk):
     run_corpus(chk, exe)
     lines_run(chk, exe, ["conv-lines"], "conv")
     lines_run(chk, exe, ["num-lines"], "num")
+    lines_run(chk, exe, ["ntop-lines"], "ntop")
+    # the serde configuration: deserializing a number is a conversion into the restricted type as well
+    exe_s = chk.cargo_build("with_serde")
+    if exe_s is not None:
+        lines_run(chk, exe_s, ["serde-lines"], "serde", only=r"de nt ")
     sample_from(chk, "conv", 2); sample_from(chk, "num", 3)
     chk.cov["exhaustive"] = False
     chk.cov["rule"] = ("as C04: every conversion row x (all values | boundaries + seeded random for wide sources); Display of every value of every type; "
